@@ -64,8 +64,12 @@ Lists4 == {<<a, b, c, d>> : a \in [n : {"ctype", "cl", "xa", "date"}, v : {1}], 
                             c \in [n : {"ctype", "cl", "te", "xb"}, v : {2}], d \in [n : HP!Classes, v : {1}]}
 C19Lists == IF Tier = "quick" THEN {l \in ListsUpTo3 : Len(l) <= 2} \cup Lists4 ELSE ListsUpTo3 \cup Lists4
 \* ncase "mixed": the i-th header of the list uses the i-th letter-case pattern (std, lower, upper, ...)
-C19Cases == [list : C19Lists, route : {"ctor", "add", "with"}, ncase : {"std", "lower", "upper", "mixed"}]
-C19Pick(c) == Tier # "quick" \/ c.ncase \in {"std", "mixed"} \/ Len(c.list) <= 1
+\* how the list reaches the response: through the constructor, add_header or with_header; "+wd" = the body is
+\* replaced (with_data) after the first half of the list, the rest is added afterwards (for ctor: by with_header)
+Routes == {"ctor", "add", "with", "ctor+wd", "add+wd", "with+wd"}
+C19Cases == [list : C19Lists, route : Routes, ncase : {"std", "lower", "upper", "mixed"}]
+C19Pick(c) == /\ (Tier # "quick" \/ c.ncase \in {"std", "mixed"} \/ Len(c.list) <= 1)
+              /\ (c.route \in {"ctor+wd", "add+wd", "with+wd"} => Len(c.list) >= 1 /\ (Tier # "quick" \/ c.ncase \in {"std", "mixed"}))
 GenC19(f) == ndJsonSerialize(f, SetToSeq({c \in C19Cases : C19Pick(c)}))
 
 \* ---- C02: every valid header line over the abstract alphabet, with its reference parse
